@@ -126,11 +126,18 @@ def timeout(duration, func, *args, **kwargs):
         return func(*args, **kwargs)
 
     target_thread = InterruptableThread(func, args, kwargs)
-    target_thread.start()
-    target_thread.join(duration)
+    try:
+        target_thread.start()
+        target_thread.join(duration)
+        # A thread that finishes just as the limit expires completed normally
+        timed_out = target_thread.is_alive() and target_thread.terminate()
+    except BaseException:
+        # The waiting thread is itself being given up on (a nested import in
+        # threaded mode): nobody else is left to stop the thread it started.
+        target_thread.terminate()
+        raise
 
-    # A thread that finishes just as the limit expires completed normally
-    if target_thread.is_alive() and target_thread.terminate():
+    if timed_out:
         timeout_exception = TimeoutError('Your code took too long to run '
                                          '(it was given {} seconds); '
                                          'maybe you have an infinite loop?'.format(duration))
